@@ -29,6 +29,8 @@ REGISTRY = {
     "C18": ("p_poolmetrics", "C18"),
     "C19": ("p_formulasync", "C19"),
     "C20": ("p_datasourcing", "C20"),
+    # extensions of the specification beyond the listed properties (DESIGN.md section 13)
+    "X01": ("p_resamplingactor", "X01"),
 }
 
 
